@@ -75,8 +75,14 @@ func c04Gen(g *fw.GenCtx) []fw.Case {
 		if g.Quick() && b != len(c03Bases)-1 {
 			continue
 		}
-		for _, op1 := range alpha {
+		for i1, op1 := range alpha {
+			if g.Quick() && !(op1.Op == "AddGraph" || op1.Op == "DeleteGraph" || i1%7 == 5) {
+				continue // quick: the first call is a graph-level call (they register and drop index fields) or one call in seven
+			}
 			for _, op2 := range alpha {
+				if g.Quick() && !(op2.Op == "AddVertex" || op2.Op == "AddEdge" || op2.Op == "BulkAdd") {
+					continue // quick: the second call is a write of elements
+				}
 				cases = append(cases, fw.MkCase("restart", c03Case{Base: b, Ops: []model.Op{op1, op2}, Restart: []int{0}}))
 			}
 		}
@@ -484,7 +490,7 @@ func init() {
 	fw.Register(&fw.Property{
 		ID:    "C04",
 		Level: "fault_enumeration",
-		Rule:  "(a) clean restarts: 12 / 400 random C03 histories of length 4-12, one variant per restart position (Badger closed and reopened before that step) plus one with two restarts, and every ordered pair of calls of the alphabet as the first two calls after a reopen (quick: from the richest base state, thorough: from all), full C03 observation set after every step against the abstract graph - in particular elements written after the reopen must be found through the label index; (b) crash points: every call of the C03 alphabet (39 calls incl. invalid ones) in 4 pre-states, plus deletions and a relabelling around a vertex with 300 incident edges (more than 1000 keys); the top-level KV writes W of the call are counted through a fault-injecting kvi.KVInterface decorator passed to kvgraph.NewKVGraph, then for EVERY k in 1..W the pre-state is rebuilt in a fresh directory, the call is interrupted before write k, the store is closed and reopened with a fresh kvgraph, and invariants I1 (adjacency entries <-> edge records, twins), I2 (label-index entries name existing elements with that label), I3 (every element is in its indexes), I4 (everything acknowledged before is intact; in-flight elements are in their old or new form) are checked. The crash points of each call are enumerated completely. Non-trivial = a history with a successful mutation / a call with at least one crash point.",
+		Rule:  "(a) clean restarts: 12 / 400 random C03 histories of length 4-12, one variant per restart position (Badger closed and reopened before that step) plus one with two restarts, and every ordered pair of calls of the alphabet as the first two calls after a reopen (quick: from the richest base state, a graph-level call or every seventh call first and an element write second; thorough: all pairs from all base states), full C03 observation set after every step against the abstract graph - in particular elements written after the reopen must be found through the label index; (b) crash points: every call of the C03 alphabet (39 calls incl. invalid ones) in 4 pre-states, plus deletions and a relabelling around a vertex with 300 incident edges (more than 1000 keys); the top-level KV writes W of the call are counted through a fault-injecting kvi.KVInterface decorator passed to kvgraph.NewKVGraph, then for EVERY k in 1..W the pre-state is rebuilt in a fresh directory, the call is interrupted before write k, the store is closed and reopened with a fresh kvgraph, and invariants I1 (adjacency entries <-> edge records, twins), I2 (label-index entries name existing elements with that label), I3 (every element is in its indexes), I4 (everything acknowledged before is intact; in-flight elements are in their old or new form) are checked. The crash points of each call are enumerated completely. Non-trivial = a history with a successful mutation / a call with at least one crash point.",
 		Assumptions: []string{
 			"each top-level KV write (Set, Delete, DeletePrefix, committing Update, committing BulkWrite) is atomic and durable once it returns, so stopping before write k and reopening reaches the same logical state as killing the process; the thorough tier validates this for Badger by really SIGKILLing a child between writes",
 			"a transaction that performs no write (kvindex's lazy recount) is not a crash point",
